@@ -113,7 +113,10 @@ CLAIMS = {
              "direction is proved at file level too (text -> tokenizer model -> turns -> generated machine) for ALL of Hm1..Hm8 "
              "(Hm5 through the multi-line block-comment lemma C13_block_comment_then_text), for any following text that begins with an empty line or whose first item is a token and "
              "that does not begin with /*, under the same oracle hypothesis and the hypothesis that the statement after the "
-             "leading comments is recognised (C13_file_reject_*); a following column-1 block comment, a first item that "
+             "leading comments is recognised (C13_file_reject_*) - for the standard case where that statement is an EMPTY LINE "
+             "the recognition is proved too (IsEmptyLine translated, C13_turn_on_empty_line; C13_file_reject_*_emptyline assume "
+             "only that the oracle agrees with the translated primaries and that the four untranslated primaries of higher "
+             "priority decline a NEWLINE-first statement); a following column-1 block comment, a first item that "
              "is not a token and fields holding di/trigraph pairs, backslash, ? or tab remain trace-level with file->trace "
              "compared on every run.  Recorded "
              "findings are refuted by witness.  Correspondence: the generated state machine replayed in Coq "
